@@ -566,9 +566,13 @@ def chainTags : List Tag :=
 
 /-- follow left operands of `/ + - % & | ^ << >>` and the insides of parentheses down to a `*` -/
 def reachesMultiply : T → Bool
-  | .node .Expression_Multiply _ => true
-  | .node .Expression_Parenthesis [_, e] => reachesMultiply e
-  | .node tag [_, l, _] => if chainTags.contains tag then reachesMultiply l else false
+  | .node tag [_, l, _] =>
+    if tag = .Expression_Multiply then true
+    else if chainTags.contains tag then reachesMultiply l else false
+  | .node tag [_, e] =>
+    if tag = .Expression_Multiply then true
+    else if tag = .Expression_Parenthesis then reachesMultiply e else false
+  | .node tag _ => tag = .Expression_Multiply
   | _ => false
 
 def divideBeforeMultiplyAt : T → Option Loc
@@ -614,6 +618,12 @@ def hasSenderCheck (body : T) : Bool :=
     | some (callee, args) => !isAnyTypeExpr callee && !isSelfdestructCallee callee && args.any isSenderCheckArg
     | none => false
 
+/-- a selfdestruct/suicide call in a function that is not protected -/
+def selfdestructCallAt (protected_ : Bool) : T → Option Loc
+  | .node .Expression_FunctionCall [loc, callee, _] =>
+    if isSelfdestructCallee callee && !protected_ then Loc.ofT loc else none
+  | _ => none
+
 def unprotectedSelfdestruct (su : T) : List Loc :=
   (contracts su).flatMap fun c =>
     (contractFunctions c).flatMap fun (_, fields) =>
@@ -621,11 +631,7 @@ def unprotectedSelfdestruct (su : T) : List Loc :=
       | some body =>
         if isConstructor fields || !isPublicOrExternal fields then []
         else
-          (extract [.FunctionCall] body).filterMap fun call =>
-            match call with
-            | .node .Expression_FunctionCall (loc :: callee :: _) =>
-              if isSelfdestructCallee callee && !(hasOnlyModifier fields || hasSenderCheck body) then Loc.ofT loc else none
-            | _ => none
+          (extract [.FunctionCall] body).filterMap (selfdestructCallAt (hasOnlyModifier fields || hasSenderCheck body))
       | none => []
 
 /-! ## dispatch by the Rust function name (the regenerated `*Dispatch` tables map variants to these names) -/
